@@ -13,15 +13,11 @@ Record obs := Obs {
   o_upd   : list (modname * N);                         (* run-time modules -> MAC value *)
   o_links : list ((modname * N) * (modname * N));
   o_nc    : list (N * (N * N * Z));                     (* next hop -> gate, mac, count *)
-  o_un    : list (N * (N * N * N));                     (* next hop -> pending route (prefix, next hop, iface) *)
+  o_un    : list (N * list (N * N * N));                (* next hop -> waiting routes (prefix, next hop, iface), arrival order *)
   o_gc    : list (N * N);                               (* iface -> gate counter (0 when absent) *)
   o_pings : list N }.                                   (* all pings so far *)
 
 Record case := Case { c_ifs : list N; c_ev : list event; c_chk : list (N * obs) }.   (* (events consumed, obs), ascending *)
-
-Definition same_map {K V} `{Eqb K} `{Eqb V} (a b : list (K * V)) : bool :=
-  Nat.eqb (length a) (length b) &&
-  forallb (fun kv => match lookup (fst kv) b with Some v => eqb v (snd kv) | None => false end) a.
 
 Fixpoint list_eqb {A} `{Eqb A} (x y : list A) : bool :=
   match x, y with
@@ -29,13 +25,19 @@ Fixpoint list_eqb {A} `{Eqb A} (x y : list A) : bool :=
   | a :: x', b :: y' => eqb a b && list_eqb x' y'
   | _, _ => false
   end.
+#[global] Instance Eqb_list {A} `{Eqb A} : Eqb (list A) := list_eqb.
+
+Definition same_map {K V} `{Eqb K} `{Eqb V} (a b : list (K * V)) : bool :=
+  Nat.eqb (length a) (length b) &&
+  forallb (fun kv => match lookup (fst kv) b with Some v => eqb v (snd kv) | None => false end) a.
+
 
 Definition same (s : st) (o : obs) : bool :=
   same_map (lpm (bs s)) (o_lpm o) &&
   same_map (upd (bs s)) (o_upd o) &&
   same_map (links (bs s)) (o_links o) &&
   same_map (map (fun kv => (fst kv, (n_gate (snd kv), n_mac (snd kv), n_count (snd kv)))) (ncache s)) (o_nc o) &&
-  same_map (map (fun kv => (fst kv, (r_pfx (snd kv), r_nh (snd kv), r_if (snd kv)))) (unres s)) (o_un o) &&
+  same_map (map (fun kv => (fst kv, map (fun r => (r_pfx r, r_nh r, r_if r)) (snd kv))) (unres s)) (o_un o) &&
   forallb (fun kv => getd (fst kv) (gatecnt s) =? snd kv) (o_gc o) &&
   forallb (fun kv => existsb (N.eqb (fst kv)) (map fst (o_gc o))) (gatecnt s) &&
   list_eqb (pings s) (o_pings o).
